@@ -70,6 +70,16 @@ class Prop:
             return "crash"
         if k in ("timeout", "diverge"):
             return "diverge"
+        if k == "ok" and op.startswith("ptr ") and " text=" in ans:
+            # the Display text of a typed address is held to "it denotes the address" (hexadecimal, any case,
+            # with or without `0x`, any padding), never to its wording
+            head, t = ans.split(" text=", 1)
+            try:
+                txt = bytes.fromhex(t.strip()).decode("ascii").strip().lower()
+                val = int(txt[2:] if txt.startswith("0x") else txt, 16)
+            except Exception:
+                val = "?"
+            return "%s textval=%s" % (head, val)
         if k == "ok" and "!" in ans:
             # error kinds embedded in a dump (`F!Overflow`, `uw=!Bounds`, `!Null`): the same rule as for a
             # top-level error — a kind the owning statement does not name is compared by class only
